@@ -18,12 +18,7 @@ MODES = ['compact', 'scatter', 'balanced', 'numa-balanced', 'none']
 # Findings of the pinned tree reproduced by this check (text for /verif/known_findings.txt is in
 # notes/C15.md; lines there with property=C15 are honoured as well).  A monitor message that
 # matches none of these signatures is a VIOLATION.
-LOCAL_KNOWN = [     # round-1 signatures moved to /verif/known_findings.txt; follow-up C15t findings (notes/C15.md):
-    {'id': 'bind-none-oversubscribed-worker-bound', 'signature': 'bind=none but thread N has a mask'},
-    {'id': 'max-cores-zero-compact-never-returns', 'signature': 'does not terminate (mode compact, process mask ignored, max_cores below thread count'},
-    {'id': 'no-core-objects-default-threads-zero', 'signature': 'rejected as zero threads'},
-    {'id': 'bind-none-oversubscribed-fewer-workers', 'signature': 'workers started for N requested threads (bind none'},
-]
+LOCAL_KNOWN = []     # every signature lives in /verif/known_findings.txt
 
 
 # ------------------------------------------------------------------------------ topologies
